@@ -208,3 +208,40 @@ Theorem C13_source_match_rebuilds : forall se ss n p i seed th m r,
   expand flags_current r = expand flags_current i.
 Proof. exact source_match_rebuilds. Qed.
 Print Assumptions C13_source_match_rebuilds.
+
+(** matching itself is now translated from the source: [src_match_single] / [src_match] (Gen/PyPattern.v) *)
+Theorem C13_source_agreement_match_single : forall n p i ret, src_match_single n p i ret = match_single flags_current n p i ret.
+Proof. exact src_match_single_eq. Qed.
+Theorem C13_source_agreement_match : forall n eqs, src_match n eqs = match_list flags_current n eqs [].
+Proof. exact src_match_eq. Qed.
+Theorem C13_source_match_sound : forall se ss n p i seed th,
+  corner_free se ss p = true -> corner_free se ss i = true -> cfd se ss seed = true ->
+  src_match_single n p i seed = Some (Some th) ->
+  sub seed th /\ cfd se ss th = true /\
+  forall th', cfd se ss th' = true -> sub th th' ->
+    p_inst flags_current (expand flags_current p) (expand_delta flags_current th') = expand flags_current i.
+Proof. exact source_match_sound. Qed.
+Theorem C13_source_match_complete : forall se ss n p i seed s res,
+  corner_free se ss p = true -> corner_free se ss i = true -> cfd se ss seed = true ->
+  nosub (expand flags_current p) = true -> p_inst flags_current (expand flags_current p) s = expand flags_current i ->
+  (forall k, In k (p_metavars (expand flags_current p)) -> alookup k s <> None) -> esub flags_current seed s ->
+  src_match_single n p i seed = Some res -> exists th, res = Some th /\ esub flags_current th s.
+Proof. exact source_match_complete. Qed.
+Theorem C13_source_match_list_sound : forall se ss n eqs th,
+  forallb (fun e => corner_free se ss (fst e) && corner_free se ss (snd e)) eqs = true ->
+  src_match n eqs = Some (Some th) ->
+  forall p i, In (p, i) eqs -> forall th', cfd se ss th' = true -> sub th th' ->
+    p_inst flags_current (expand flags_current p) (expand_delta flags_current th') = expand flags_current i.
+Proof. exact source_match_list_sound. Qed.
+Theorem C13_source_match_list_complete : forall se ss n eqs s res,
+  forallb (fun e => corner_free se ss (fst e) && corner_free se ss (snd e)) eqs = true ->
+  (forall p i, In (p, i) eqs ->
+     nosub (expand flags_current p) = true /\ p_inst flags_current (expand flags_current p) s = expand flags_current i /\
+     (forall k, In k (p_metavars (expand flags_current p)) -> alookup k s <> None)) ->
+  src_match n eqs = Some res -> exists th, res = Some th.
+Proof. exact source_match_list_complete. Qed.
+Print Assumptions C13_source_match_list_complete.
+Example C13_source_ex :
+  src_match 30 [(PEVar 0, PEVar 0)] = Some (Some []) /\
+  src_match_single 30 (and_p (pphi 0) (pphi 1)) (and_p (neg_p (PEVar 1)) (PEVar 2)) [] = Some (Some [(0, neg_p (PEVar 1)); (1, PEVar 2)]).
+Proof. vm_compute. split; reflexivity. Qed.
